@@ -56,6 +56,17 @@ theorem seq_index_out_of_range (ty : Bytes) (xs : List Val) (i : Int64)
   · have : ¬ (xs.length > i.toNatClampNeg) := by omega
     simp [this]
 
+/-- **a subscript that is no number is no index** (D61): on a list, an array or a text, `a[k]` with
+    `k` nothing, a bool, a container, or a text that is not the text of a number is the empty
+    value — never the first element -/
+theorem non_number_subscript_is_nothing (cv k : Val) (hk : indexLike k = false)
+    (hcv : (∃ ty xs, cv = .list ty xs) ∨ (∃ ty xs, cv = .arr ty xs) ∨ (∃ s, cv = .str s)) :
+    stepSub cv k = .ok none := by
+  rcases hcv with ⟨ty, xs, rfl⟩ | ⟨ty, xs, rfl⟩ | ⟨s, rfl⟩ <;> simp [stepSub, hk]
+
+example : indexLike (.str b!"abc") = false ∧ indexLike .nil = false ∧ indexLike (.bool true) = false ∧ indexLike (.str b!"1") = true := by
+  refine ⟨?_, ?_, ?_, ?_⟩ <;> decide
+
 /-- indexing or naming into a scalar is an execution error, for every scalar and every step -/
 theorem scalar_steps_are_errors (v : Val)
     (hv : (∃ b, v = .bool b) ∨ (∃ i, v = .int i) ∨ (∃ u, v = .uint u) ∨ (∃ f, v = .float f)) (i : Int64) (k : Bytes) :
